@@ -8,6 +8,10 @@ BUILT = {
          "independent EM byte parser + row model; recovery obligation after faults", "4/C01"),
 }
 PLANNED = {}
+BUILT["C14"] = ("map rotation/placement/windowing/symmetrisation under a hostile allocator: every operation runs twice per step under two "
+                "legal np.empty behaviours (zero, NaN, 1e30, -7, stale previous result) and must give identical results that satisfy the "
+                "active-rotation voxel model (all 24 cube rotations per box), blob-moves-to-Rv, inverse restores, stamping, window and "
+                "mean-of-rotations models; inputs also come from EM/MRC files on SimFS with read faults", "4/C14")
 BUILT["C08"] = ("set algebra over histories: seeded sessions drive up to four live lists through subset/remove/split (memory and files)/"
                 "intersection/drop-duplicates/merge-and-renumber/merge-and-drop-duplicates (live objects and saved paths)/renumber "
                 "particles/renumber objects with save->restart->load in between; pure-Python row-set model stepped in lock-step; "
